@@ -373,8 +373,10 @@ fn value_completion(arg: &Arg) -> Option<String> {
                             Some(format!(
                                 r#"{name}\:"{tooltip}""#,
                                 name = escape_value(value.get_name()),
+                                // the description is wrapped in `"`: keep a `"` of the text inside it
                                 tooltip =
-                                    escape_help(&value.get_help().unwrap_or_default().to_string()),
+                                    escape_help(&value.get_help().unwrap_or_default().to_string())
+                                        .replace('"', "\\\""),
                             ))
                         }
                     })
